@@ -91,7 +91,7 @@ fn gen_case(d: &mut Dice) -> Case {
 }
 
 pub fn gen_batch(seed: u64, tier: Tier) -> Vec<Case> {
-    let n = tier.pick(3000usize, 40_000);
+    let n = tier.pick(10_000usize, 60_000);
     let mut runner = runner_for(seed, "C19", 0);
     let dice = proptest::collection::vec(proptest::num::u16::ANY, 96..=96);
     let mut v: Vec<Case> = draw(&mut runner, &dice, n).into_iter().map(|t| gen_case(&mut Dice::new(t.current()))).collect();
